@@ -9,6 +9,12 @@ import (
 	"strings"
 )
 
+// exit removes the scratch directory of solver files before leaving (deferred calls do not run on os.Exit).
+func exit(code int) {
+	cleanupWorkDir()
+	os.Exit(code)
+}
+
 func main() {
 	if len(os.Args) < 2 {
 		fmt.Fprintln(os.Stderr, "usage: sctpvc dev|check|baseline|replay ...")
@@ -17,11 +23,11 @@ func main() {
 	defer cleanupWorkDir()
 	switch os.Args[1] {
 	case "dev":
-		os.Exit(cmdDev(os.Args[2:]))
+		exit(cmdDev(os.Args[2:]))
 	case "check":
-		os.Exit(cmdCheck(os.Args[2:]))
+		exit(cmdCheck(os.Args[2:]))
 	case "baseline":
-		os.Exit(cmdBaseline(os.Args[2:]))
+		exit(cmdBaseline(os.Args[2:]))
 	case "seqscan":
 		p, err := loadProgram("/repo")
 		if err != nil {
@@ -79,6 +85,7 @@ func cmdDev(args []string) int {
 	repo := fs.String("repo", "/repo", "repository")
 	verbose := fs.Bool("v", false, "verbose")
 	keep := fs.String("keep", "", "directory to keep SMT files")
+	fast := fs.Bool("fast", false, "main query only (development)")
 	fs.Parse(args)
 	p, err := loadProgram(*repo)
 	if err != nil {
@@ -90,7 +97,7 @@ func cmdDev(args []string) int {
 	if *opat != "" {
 		ore = regexp.MustCompile(*opat)
 	}
-	cfg := Config{TimeoutS: *timeout, Jobs: *jobs, Verbose: *verbose, KeepSMT: *keep}
+	cfg := Config{TimeoutS: *timeout, Jobs: *jobs, Verbose: *verbose, KeepSMT: *keep, Fast: *fast}
 	bad := 0
 	for _, key := range p.Order {
 		c := p.Contracts[key]
